@@ -79,10 +79,15 @@ func Builders(thorough bool) []Builder {
 	add := func(typ, shape string, mk func() rtcp.Packet) {
 		out = append(out, Builder{typ, shape, mk})
 	}
-	counts := ints(thorough, []int{0, 1, 2, 3, 31}, []int{0, 1, 2, 3, 4, 5, 30, 31})
+	all32 := make([]int, 32)
+	for i := range all32 {
+		all32[i] = i
+	}
+	// list lengths: small ones, the powers of two and their neighbours, the maximum; thorough: every length
+	counts := ints(thorough, []int{0, 1, 2, 3, 7, 8, 9, 15, 16, 17, 31}, all32)
 	// SR
 	for _, n := range counts {
-		for _, e := range ints(thorough, []int{0, 4, 8}, []int{0, 4, 8, 12, 16, 1024}) {
+		for _, e := range ints(thorough, []int{0, 4, 8, 16, 256}, []int{0, 4, 8, 12, 16, 32, 64, 128, 256, 1024}) {
 			n, e := n, e
 			add("SenderReport", fmt.Sprintf("reports=%d,ext=%d", n, e), func() rtcp.Packet {
 				t := &tagger{}
@@ -111,7 +116,8 @@ func Builders(thorough bool) []Builder {
 		}
 	}
 	// SDES
-	textLens := ints(thorough, []int{0, 1, 2, 3, 4, 5, 6, 7, 8, 9, 254, 255}, []int{0, 1, 2, 3, 4, 5, 6, 7, 8, 9, 10, 11, 12, 13, 14, 15, 16, 17, 253, 254, 255})
+	textLens := ints(thorough, []int{0, 1, 2, 3, 4, 5, 6, 7, 8, 9, 15, 16, 17, 31, 32, 33, 63, 64, 65, 127, 128, 129, 254, 255},
+		[]int{0, 1, 2, 3, 4, 5, 6, 7, 8, 9, 10, 11, 12, 13, 14, 15, 16, 17, 18, 30, 31, 32, 33, 34, 62, 63, 64, 65, 66, 126, 127, 128, 129, 130, 191, 192, 193, 252, 253, 254, 255})
 	for _, l := range textLens {
 		l := l
 		add("SourceDescription", fmt.Sprintf("chunks=1,items=1,text=%d", l), func() rtcp.Packet {
@@ -119,7 +125,7 @@ func Builders(thorough bool) []Builder {
 			return &rtcp.SourceDescription{Chunks: []rtcp.SourceDescriptionChunk{{Source: t.u32(), Items: []rtcp.SourceDescriptionItem{{Type: rtcp.SDESCNAME, Text: t.text(l)}}}}}
 		})
 	}
-	for _, nc := range ints(thorough, []int{0, 1, 2, 3, 31}, []int{0, 1, 2, 3, 4, 31}) {
+	for _, nc := range ints(thorough, []int{0, 1, 2, 3, 7, 8, 15, 16, 17, 31}, all32) {
 		for _, ni := range ints(thorough, []int{0, 1, 2, 3}, []int{0, 1, 2, 3, 4}) {
 			for rot := 0; rot < 4; rot++ {
 				if nc == 0 && (ni > 0 || rot > 0) || ni == 0 && rot > 0 {
@@ -159,7 +165,7 @@ func Builders(thorough bool) []Builder {
 		}
 	}
 	// APP
-	for _, l := range ints(thorough, []int{0, 1, 2, 3, 4, 5, 6, 7, 8, 9}, []int{0, 1, 2, 3, 4, 5, 6, 7, 8, 9, 10, 11, 12, 13, 14, 15, 16, 17, 1024}) {
+	for _, l := range ints(thorough, []int{0, 1, 2, 3, 4, 5, 6, 7, 8, 9, 15, 16, 17, 255, 256, 257}, []int{0, 1, 2, 3, 4, 5, 6, 7, 8, 9, 10, 11, 12, 13, 14, 15, 16, 17, 31, 32, 33, 63, 64, 65, 127, 128, 129, 255, 256, 257, 1023, 1024, 1025, 4095, 4096}) {
 		l := l
 		add("ApplicationDefined", fmt.Sprintf("data=%d", l), func() rtcp.Packet {
 			t := &tagger{}
@@ -167,7 +173,9 @@ func Builders(thorough bool) []Builder {
 		})
 	}
 	// NACK
-	for _, n := range ints(thorough, []int{1, 2, 3, 31, 253}, []int{1, 2, 3, 4, 5, 30, 31, 32, 253}) {
+	entryCounts := ints(thorough, []int{1, 2, 3, 7, 8, 9, 15, 16, 17, 31, 32, 63, 64, 65, 127, 128, 253},
+		[]int{1, 2, 3, 4, 5, 6, 7, 8, 9, 10, 14, 15, 16, 17, 18, 30, 31, 32, 33, 62, 63, 64, 65, 66, 126, 127, 128, 129, 130, 190, 191, 192, 193, 251, 252, 253})
+	for _, n := range entryCounts {
 		n := n
 		add("TransportLayerNack", fmt.Sprintf("pairs=%d", n), func() rtcp.Packet {
 			t := &tagger{}
@@ -187,7 +195,7 @@ func Builders(thorough bool) []Builder {
 		return &rtcp.PictureLossIndication{SenderSSRC: t.u32(), MediaSSRC: t.u32()}
 	})
 	// SLI
-	for _, n := range ints(thorough, []int{1, 2, 3, 31, 253}, []int{1, 2, 3, 4, 5, 30, 31, 32, 253}) {
+	for _, n := range entryCounts {
 		n := n
 		add("SliceLossIndication", fmt.Sprintf("entries=%d", n), func() rtcp.Packet {
 			t := &tagger{}
@@ -199,7 +207,7 @@ func Builders(thorough bool) []Builder {
 		})
 	}
 	// FIR
-	for _, n := range ints(thorough, []int{1, 2, 3, 31}, []int{1, 2, 3, 4, 5, 30, 31, 32}) {
+	for _, n := range entryCounts {
 		n := n
 		add("FullIntraRequest", fmt.Sprintf("entries=%d", n), func() rtcp.Packet {
 			t := &tagger{}
@@ -211,7 +219,7 @@ func Builders(thorough bool) []Builder {
 		})
 	}
 	// REMB
-	rembN := []int{0, 1, 2, 3, 255}
+	rembN := []int{0, 1, 2, 3, 7, 8, 9, 15, 16, 17, 31, 32, 33, 63, 64, 65, 127, 128, 129, 254, 255}
 	if thorough {
 		rembN = nil
 		for i := 0; i <= 255; i++ {
@@ -231,7 +239,7 @@ func Builders(thorough bool) []Builder {
 	}
 	// CCFB
 	for _, nb := range ints(thorough, []int{0, 1, 2, 3}, []int{0, 1, 2, 3, 4}) {
-		for _, nm := range ints(thorough, []int{0, 1, 2, 3, 4, 5}, []int{0, 1, 2, 3, 4, 5, 6, 7, 8, 9}) {
+		for _, nm := range ints(thorough, []int{0, 1, 2, 3, 4, 5, 7, 8, 15, 16, 17}, []int{0, 1, 2, 3, 4, 5, 6, 7, 8, 9, 10, 15, 16, 17, 31, 32, 33, 64, 127, 128, 255, 256}) {
 			for _, begin := range []int{-1, 0, 65534, 65535, 65536 - 3} {
 				if nb == 0 && (nm > 0 || begin != -1) {
 					continue
@@ -247,7 +255,7 @@ func Builders(thorough bool) []Builder {
 						}
 						n := nm
 						if b > 0 {
-							n = (nm + b) % 6 // neighbours of different parity
+							n = (nm + b) % 6 // neighbours of different size and parity
 						}
 						for m := 0; m < n; m++ {
 							mb := rtcp.CCFeedbackMetricBlock{}
